@@ -79,6 +79,10 @@ theorem source_pins_ok : AssertTable.sourcePins = [
   ("utils.unbox_int", "4d183c24849990a5")
 ] := by decide +kernel
 
+/-- every shape check of the extractor on the mirrored source passed (regex, operator lists, the `typ == "uint256"` sign
+decision, arities, `mk_cond`'s chain and operand order, literal offsets, the exception hierarchy) -/
+theorem source_shape_ok : AssertTable.sourceProblems = [] := by decide
+
 /-- constants of `mk_assert_handler` / `vm_assert_*` read from the source are the ones the proofs assume -/
 theorem source_constants_ok :
     AssertTable.unaryOps = ["True", "False"] ∧ AssertTable.eqOps = ["Eq", "NotEq"] ∧ AssertTable.unsignedTy = "uint256" ∧
